@@ -2,6 +2,7 @@
 C15 — a mapreduce outfile is never observable half-written.
 -/
 import DtailModel.Lemmas.Outfile
+import DtailModel.Lemmas.GenOutfile
 namespace Dtail.C15
 open Dtail
 
@@ -214,6 +215,52 @@ theorem C15_append_prefix (fs : FS) (r : OutReq) (k : Nat) (h : r.append = true)
       obtain ⟨row, _, hrow⟩ := List.mem_flatMap.1 hx
       exact csvLineWrites_all _ _ op hrow
   · rw [List.isPrefixOf_iff_prefix]; exact List.prefix_refl _
+
+/-- **Tie G: the file operations of the translated `WriteResult` are the model's `writeResultOps`.**  `WriteResult`,
+    `writeQueryFile`, `getOutfileFD`, `resultWriteUnformatted` and `resultWriteUnformattedHeader` of
+    internal/mapr/groupsetresult.go, translated on this run with every file operation recorded in order: when no operation
+    fails, `os.Stat` answers for the file system `fs`, the query has an outfile and every row carries one value per column
+    (what `GroupSet.result` builds), the translated function does not panic (no nil dereference of `query.Outfile`), returns
+    no error, and has performed exactly the operations of `writeResultOps fs r` — the sequence whose every prefix the crash
+    theorems above are about. -/
+theorem C15_generated_writeresult_is_model_ops (ext : Go.Ext) (hio : GenOutfile.NoIOErr ext) (fs : FS)
+    (hstat : GenOutfile.StatAgrees ext fs) (g : Gen.Outfile.GroupSet) (query : Gen.Outfile.Query) (o : Gen.Outfile.Outfile)
+    (ho : query.Outfile = some o) (final : Bool) (hrows : ∀ row ∈ ext.rowValues, row.length = query.Select.length) :
+    Gen.Outfile.GroupSet.WriteResult ext g query final
+      = Outcome.ok (⟨g.ops ++ (writeResultOps fs (GenOutfile.reqOf ext query o final)).map GenOutfile.ofFOp⟩, none) :=
+  GenOutfile.WriteResult_refines ext hio fs hstat g query o ho final hrows
+
+/-- **No half-written outfile, on the translated code.**  Kill the process after any number `k` of the file operations the
+    translated `WriteResult` performs (replace mode, starting from an empty history): the outfile path holds what it held
+    before, or the complete new result — and then the .query file holds the query text. -/
+theorem C15_generated_no_half_written (ext : Go.Ext) (hio : GenOutfile.NoIOErr ext) (fs : FS)
+    (hstat : GenOutfile.StatAgrees ext fs) (query : Gen.Outfile.Query) (o : Gen.Outfile.Outfile)
+    (ho : query.Outfile = some o) (final : Bool) (hrows : ∀ row ∈ ext.rowValues, row.length = query.Select.length)
+    (happ : o.AppendMode = false) (k : Nat) :
+    ∃ g' e, Gen.Outfile.GroupSet.WriteResult ext {} query final = Outcome.ok (g', e) ∧
+      let r := GenOutfile.reqOf ext query o final
+      let fs' := applyOps fs ((g'.ops.take k).filterMap GenOutfile.toFOp)
+      (fsGet fs' r.path = fsGet fs r.path ∨
+        (fsGet fs' r.path = some (completeResult r) ∧ fsGet fs' (r.path ++ QUERYEXT) = some r.rawQuery)) := by
+  refine ⟨_, _, GenOutfile.WriteResult_refines ext hio fs hstat {} query o ho final hrows, ?_⟩
+  have hk : ∀ (l : List FOp), ((l.map GenOutfile.ofFOp).take k).filterMap GenOutfile.toFOp = l.take k := by
+    intro l
+    rw [← List.map_take, List.filterMap_map]
+    have : (GenOutfile.toFOp ∘ GenOutfile.ofFOp) = some := by funext x; exact GenOutfile.toFOp_ofFOp x
+    rw [this, List.filterMap_some]
+  show _ ∨ _
+  have he : ({} : Gen.Outfile.GroupSet).ops = [] := rfl
+  simp only [he, List.nil_append, hk]
+  exact C15_noappend fs (GenOutfile.reqOf ext query o final) k happ
+
+/-- non-vacuity: a replace-mode request, two columns, one row: the translated function records the eight writes between
+    the two renames -/
+example :
+    let ext : Go.Ext := { parseFloat := fun _ => (0, none), rowValues := [[b!"1", b!"2"]] }
+    let q : Gen.Outfile.Query := { Select := [⟨b!"a"⟩, ⟨b!"b"⟩], Limit := -1, Outfile := some ⟨b!"/d/o", false⟩, RawQuery := b!"q" }
+    (match Gen.Outfile.GroupSet.WriteResult ext {} q true with
+      | .ok (g, none) => g.ops.length
+      | _ => 0) = 13 := by decide
 
 /-- non-vacuity / sanity: a final non-append write ends with the complete result in place -/
 example :
